@@ -214,6 +214,8 @@ void run_case(const uint32_t *sym, int n, int comps, int level, int scheme, mc::
 // ------------------------------------------------------------ (a) cheap
 const uint32_t kCheap[10] = {0, 1, 2, 3, 63, 64, 255, 256, 4095, 4096};
 const uint32_t kExpensive[10] = {0, 1, 1u << 17, (1u << 18) - 1, 1u << 18, 1u << 22, 1u << 24, 0x7FFFFFFFu, 0x80000000u, 0xFFFFFFFFu};
+// length 3: without 2^24 (a forced-raw case with max value 2^24 costs ~0.3 s and ~0.5 GiB)
+const uint32_t kExpensive9[9] = {0, 1, 1u << 17, (1u << 18) - 1, 1u << 18, 1u << 22, 0x7FFFFFFFu, 0x80000000u, 0xFFFFFFFFu};
 
 struct Block {
   int len, comps;
@@ -248,7 +250,12 @@ void array_from_index(const std::vector<Block> &blocks, uint64_t idx, const uint
   }
 }
 
-void add_cheap_space(mc::Runner &R, const std::string &name, int lo, int hi, bool quick, bool thorough) {
+// |level_classes|: use one level per precision-adjustment class {0,5,7,8,10}
+// instead of all of 0..10 (the level only selects the adjustment -2..+2 of the
+// raw scheme's precision class).
+const int kLevelClasses[5] = {0, 5, 7, 8, 10};
+void add_cheap_space(mc::Runner &R, const std::string &name, int lo, int hi, bool quick, bool thorough, bool level_classes = false) {
+  const int nlevels = level_classes ? 5 : 11;
   uint64_t total = 0;
   auto blocks = std::make_shared<std::vector<Block>>(make_blocks(lo, hi, 10, &total));
   mc::Space sp;
@@ -256,22 +263,23 @@ void add_cheap_space(mc::Runner &R, const std::string &name, int lo, int hi, boo
   sp.size = total;
   sp.quick = quick;
   sp.thorough = thorough;
-  sp.cases_per_index = 33;
+  sp.cases_per_index = 3 * nlevels;
   sp.run = [=](uint64_t idx, mc::Ctx &ctx) {
     uint32_t sym[8];
     int n, comps;
     array_from_index(*blocks, idx, kCheap, 10, sym, &n, &comps);
     Acc acc;
-    for (int level = 0; level <= 10; ++level)
+    for (int l = 0; l < nlevels; ++l)
       for (int scheme = 0; scheme < 3; ++scheme)
-        run_case(sym, n, comps, level, scheme, ctx, acc, [&] { return "symbols " + show_array(sym, n); });
+        run_case(sym, n, comps, level_classes ? kLevelClasses[l] : l, scheme, ctx, acc, [&] { return "symbols " + show_array(sym, n); });
     acc.flush(ctx);
   };
   sp.describe = [=](uint64_t idx) {
     uint32_t sym[8];
     int n, comps;
     array_from_index(*blocks, idx, kCheap, 10, sym, &n, &comps);
-    return "symbols " + show_array(sym, n) + " comps=" + std::to_string(comps) + ", levels 0..10 x {auto, forced tagged, forced raw}";
+    return "symbols " + show_array(sym, n) + " comps=" + std::to_string(comps) +
+           (level_classes ? ", levels {0,5,7,8,10}" : ", levels 0..10") + " x {auto, forced tagged, forced raw}";
   };
   sp.klass = [=](uint64_t) { return std::string("symbol<2^18"); };
   R.add(sp);
@@ -279,9 +287,10 @@ void add_cheap_space(mc::Runner &R, const std::string &name, int lo, int hi, boo
 
 // expensive alphabet: one codec call per index
 const int kExpLevels[3] = {0, 7, 10};
-void add_expensive_space(mc::Runner &R, const std::string &name, int lo, int hi, bool quick, bool thorough) {
+void add_expensive_space(mc::Runner &R, const std::string &name, int lo, int hi, bool quick, bool thorough,
+                         const uint32_t *alphabet = kExpensive, uint64_t k = 10) {
   uint64_t total = 0;
-  auto blocks = std::make_shared<std::vector<Block>>(make_blocks(lo, hi, 10, &total));
+  auto blocks = std::make_shared<std::vector<Block>>(make_blocks(lo, hi, k, &total));
   mc::Space sp;
   sp.name = name;
   sp.size = total * 9;
@@ -291,7 +300,7 @@ void add_expensive_space(mc::Runner &R, const std::string &name, int lo, int hi,
   auto decode = [=](uint64_t idx, uint32_t *sym, int *n, int *comps, int *level, int *scheme) {
     *scheme = static_cast<int>(idx % 3);
     *level = kExpLevels[(idx / 3) % 3];
-    array_from_index(*blocks, idx / 9, kExpensive, 10, sym, n, comps);
+    array_from_index(*blocks, idx / 9, alphabet, k, sym, n, comps);
   };
   sp.run = [=](uint64_t idx, mc::Ctx &ctx) {
     uint32_t sym[8];
@@ -455,10 +464,11 @@ int main(int argc, char **argv) {
   build_fam();
   R.rule =
       "exhaustive enumeration, nothing sampled; one evaluation = EncodeSymbols + sentinel varint + DecodeSymbols on an "
-      "exact-size heap copy. (a) every array of length 1..4 (quick) / 1..6 (thorough; lengths <= 5 under ASan, length 6 at -O2) "
-      "over {0,1,2,3,63,64,255,256,4095,4096} x "
+      "exact-size heap copy. (a) every array of length 1..4 (quick) / 1..6 (thorough; lengths <= 5 under ASan, length 6 at -O2 "
+      "with one level per precision class {0,5,7,8,10}) over {0,1,2,3,63,64,255,256,4095,4096} x "
       "components {1,2,3,4} dividing the length x compression level 0..10 x scheme {auto, forced tagged, forced raw}; every "
-      "array of length <= 2 (quick) / <= 3 (thorough) over {0,1,2^17,2^18-1,2^18,2^22,2^24,2^31-1,2^31,2^32-1} x components x "
+      "array of length <= 2 (quick) / <= 3 (thorough; length 3 without 2^24) over "
+      "{0,1,2^17,2^18-1,2^18,2^22,2^24,2^31-1,2^31,2^32-1} x components x "
       "levels {0,7,10} x scheme (-O2 part; length 1 also under ASan); (b) every frequency vector over 4 symbol ids with total "
       "1..24 (quick) / 1..64 (thorough; totals <= 40 under ASan, 41..64 at -O2) as ascending and descending array, dense ids {0,1,2,3} and sparse ids {1,3,68,134}, "
       "levels {0,5,7,8,10} x scheme; (c) families: symbols 0..n-1 once each + symbol 0 m times (+ symbol n-1 m/3 times) for " +
@@ -480,9 +490,9 @@ int main(int argc, char **argv) {
   if (fast_part) {
     add_fam_space(R, "norm_large", &g_fam_large, true, true);
     add_expensive_space(R, "expensive_len1to2", 1, 2, true, true);
-    add_expensive_space(R, "expensive_len3", 3, 3, false, true);
+    add_expensive_space(R, "expensive_len3_without_2p24", 3, 3, false, true, kExpensive9, 9);
     // the two largest cheap blocks run at -O2 (about 95 us per case under ASan)
-    add_cheap_space(R, "cheap_len6", 6, 6, false, true);
+    add_cheap_space(R, "cheap_len6_level_classes", 6, 6, false, true, true);
     add_fv_space(R, "freq_total41to64", 41, 64, false, true);
     R.require("encode_reported_failure:forced-raw", 1);
     R.require("scheme_used:tagged", 1);
